@@ -76,6 +76,18 @@ func genC03(c *Ctx) {
 			for d := -1; d <= n+1; d++ {
 				ks = append(ks, k0+d)
 			}
+			// segments whose start is no whole number of audio ticks while its floor lies exactly on a frame boundary (and the
+			// same for one tick above): where a rounding slip in the video-to-audio mapping shows
+			found := 0
+			for k := 1; k < 40000 && found < 6; k++ {
+				e := expectSeg(a, ref, k, 0)
+				x := e.start * audT
+				if x%refT != 0 && ((x/refT)%fd == 0 || (x/refT+1)%fd == 0) {
+					ks = append(ks, k-1, k, k+1)
+					found++
+					c.Count("audio-boundary-coincidence-k")
+				}
+			}
 			for _, cf := range []cfgVar{mkCfg(0, 60, 0, 0, "n"), mkCfg(0, 60, 0, 0, "tlt"), mkCfg(61, 30, 3, 0, "tln"), mkCfg(61, 30, 0, 0, "tlt")} {
 				var prevK = -10
 				var prevEnd uint64
